@@ -34,6 +34,13 @@ TABLE = {
     'C03': [
         ('c08', 'rule_r9', (), 'C03.R14', 'the round trip is the same with compiled templates on either side (concrete compile / replay fold, shared with C08.R9)', None),
         ('c01', 'rule_r7', (), 'C03.R15', 'missing reads back as missing: all ones of a field wider than one bit, for every element class (shared with C01.R7)', None),
+        ('c04', 'rule_r1', (), 'C03.R16', 'every message is written into its own bit stream and framed by its own lengths: nothing of a refused message is left in front of the '
+                                          'next one (back-patch / framing fold, shared with C04.R1)', None),
+        ('c05', 'rule_state_mode', ('C03.R17',), 'C03.R17', 'the data section is written in the layout the header declares, also for a single subset (shared with C05.R8)', None),
+    ],
+    'C18': [
+        ('c17', 'rule_r2', (), 'C18.R8', 'a metadata expression of a script is looked up in the message it is run on, section by section, whatever was looked up before (shared '
+                                         'with C17.R2)', None),
     ],
     'C05': [
         ('c02', 'rule_r2', (), 'C05.R14', 'what the compressed writer stores is the scaled integer of each value, minimum and differences taken from those (shared with C02.R2)', None),
